@@ -22,11 +22,13 @@ Definition cmd_eqb (a b : cmd) : bool :=
   | _, _ => false
   end.
 
-(* (command buffer, what Command.parse returned: None = NotParseable) *)
-Definition chk_parse (c : bytes * option cmd) : bool :=
+(* (command buffer, what Command.parse did: a command, NotParseable, or
+   Exc 1 = ValueError from int()) *)
+Definition chk_parse (c : bytes * result cmd) : bool :=
   match parse_command (fst c), snd c with
-  | Ok a, Some b => cmd_eqb a b
-  | NotParseable, None => true
+  | Ok a, Ok b => cmd_eqb a b
+  | NotParseable, NotParseable => true
+  | Exc j, Exc k => (j =? k)%N
   | _, _ => false
   end.
 
@@ -147,21 +149,29 @@ Record prog_case := mk_case {
   pc_conns : nat;                                (* connections opened (all greet) *)
   pc_greeting : resp;                            (* observed greeting of each *)
   pc_events : list (nat * bytes * list bytes);   (* connection, command buffer, lines sent to challenges *)
-  pc_expect : list (option resp * list (user * fstate)) }.   (* answer, stores after the step *)
+  pc_expect : list (option resp * list (user * fstate)) }.
+                 (* answer, and the stores that differ from the step before *)
 
-Definition stores_match (st : stores fstate) (obs : list (user * fstate)) : bool :=
-  forallb (fun p => fstate_eqb (get_store fstate fs_init st (fst p)) (snd p)) obs.
+(* the observed stores are kept as an association list updated by each step's
+   changes; model and observation must agree on every user of the case *)
+Definition obs_update (cur : stores fstate) (delta : list (user * fstate)) : stores fstate :=
+  fold_left (fun acc p => set_store fstate acc (fst p) (snd p)) delta cur.
+Definition stores_match (users : list user) (st obs : stores fstate) : bool :=
+  forallb (fun u => fstate_eqb (get_store fstate fs_init st u) (get_store fstate fs_init obs u))
+          users.
 
 Fixpoint chk_steps (frun : fstate -> cmd -> resp * fstate)
          (sasl : bytes -> option bytes -> list bytes -> auth_outcome)
+         (users : list user) (obs : stores fstate)
          (w : world fstate) (evs : list (nat * bytes * list bytes))
          (exp : list (option resp * list (user * fstate))) : bool :=
   match evs, exp with
   | [], [] => true
-  | (k, buf, conts) :: evs', (o, obs) :: exp' =>
+  | (k, buf, conts) :: evs', (o, delta) :: exp' =>
     let '(o', w') := step sasl fstate frun fs_init w (k, input_of_bytes buf conts) in
-    option_eqb resp_eqb o' o && stores_match (w_stores fstate w') obs
-    && chk_steps frun sasl w' evs' exp'
+    let obs' := obs_update obs delta in
+    option_eqb resp_eqb o' o && stores_match users (w_stores fstate w') obs'
+    && chk_steps frun sasl users obs' w' evs' exp'
   | _, _ => false
   end.
 
@@ -169,6 +179,7 @@ Definition chk_prog (c : prog_case) : bool :=
   let cfg := pc_cfg c in
   resp_eqb (caps_resp (conn_init cfg)) (pc_greeting c)
   && chk_steps (fstate_run cfg (compiles_of (pc_compiles c))) (sasl_of (pc_sasl c))
+       (map fst (pc_stores c)) (pc_stores c)
        (mk_world fstate (pc_stores c) (repeat (conn_init cfg) (pc_conns c)))
        (pc_events c) (pc_expect c).
 
@@ -177,20 +188,23 @@ Definition chk_prog (c : prog_case) : bool :=
    (None: the greeting or the lengths differ) *)
 Fixpoint diag_steps (frun : fstate -> cmd -> resp * fstate)
          (sasl : bytes -> option bytes -> list bytes -> auth_outcome)
+         (users : list user) (obs : stores fstate)
          (w : world fstate) (i : nat) (evs : list (nat * bytes * list bytes))
          (exp : list (option resp * list (user * fstate)))
   : option (nat * option resp * list (user * fstate)) :=
   match evs, exp with
-  | (k, buf, conts) :: evs', (o, obs) :: exp' =>
+  | (k, buf, conts) :: evs', (o, delta) :: exp' =>
     let '(o', w') := step sasl fstate frun fs_init w (k, input_of_bytes buf conts) in
-    if option_eqb resp_eqb o' o && stores_match (w_stores fstate w') obs
-    then diag_steps frun sasl w' (S i) evs' exp'
-    else Some (i, o', map (fun p => (fst p, get_store fstate fs_init (w_stores fstate w') (fst p))) obs)
+    let obs' := obs_update obs delta in
+    if option_eqb resp_eqb o' o && stores_match users (w_stores fstate w') obs'
+    then diag_steps frun sasl users obs' w' (S i) evs' exp'
+    else Some (i, o', map (fun u => (u, get_store fstate fs_init (w_stores fstate w') u)) users)
   | _, _ => None
   end.
 
 Definition diag_prog (c : prog_case) :=
   let cfg := pc_cfg c in
   diag_steps (fstate_run cfg (compiles_of (pc_compiles c))) (sasl_of (pc_sasl c))
+    (map fst (pc_stores c)) (pc_stores c)
     (mk_world fstate (pc_stores c) (repeat (conn_init cfg) (pc_conns c))) 0
     (pc_events c) (pc_expect c).
